@@ -1,5 +1,131 @@
 /-
-C01 — property theorems (stub: not built yet).
+C01 — first match and captures follow leftmost priority-ordered backtracking.
+
+The property's definition is `Spec.find` (Model/Spec.lean): ordered list of successes of the
+pattern, head of that list at the first position in scan order where it is non-empty.  Leg S
+compares the Go engine with it on every case.  The theorems here establish that this definition
+is what it claims to be and that the executable matcher the driver runs is that definition.
 -/
+import RegexVerif.Lemmas.Spec
+import RegexVerif.Lemmas.Backtrack
+
 namespace RegexVerif.Props.C01
+open RegexVerif RegexVerif.Spec
+
+/-- **The executable backtracking matcher is the specification.**  For every pattern, direction,
+    state and continuation, the depth-first continuation-passing matcher returns the continuation's
+    answer on the first (highest-priority) success of the list-of-successes semantics that the
+    continuation accepts.  With `k = some` this is "the highest-priority way to match". -/
+theorem backtrack_eq_spec (e : Env) (p : Pat) (rtl : Bool) {α : Type} (st : St) (k : St → Option α) :
+    run e p rtl st k = (m e p rtl st).findSome? k :=
+  run_eq e p rtl st k
+
+/-- the driver's find is the specification's find -/
+theorem findRun_eq_find (e : Env) (p : Pat) (rtl : Bool) (start : Nat) :
+    findRun e p rtl start = find e p rtl start :=
+  findRun_eq e p rtl start
+
+/-- left-to-right scan order: exactly the positions `start ≤ i ≤ n` -/
+theorem mem_scanOrder_ltr (start n i : Nat) : i ∈ scanOrder false start n ↔ start ≤ i ∧ i ≤ n := by
+  simp only [scanOrder, Bool.false_eq_true, if_false]
+  constructor
+  · intro h
+    have h1 := List.mem_range.mp (List.mem_of_mem_drop h)
+    obtain ⟨k, hk, hk2⟩ := List.getElem_of_mem h
+    simp only [List.getElem_drop, List.getElem_range] at hk2
+    omega
+  · intro ⟨h1, h2⟩
+    rw [List.mem_iff_getElem]
+    refine ⟨i - start, by simp; omega, ?_⟩
+    simp only [List.getElem_drop, List.getElem_range]; omega
+
+/-- right-to-left scan order: exactly the positions `i ≤ start` -/
+theorem mem_scanOrder_rtl (start n i : Nat) : i ∈ scanOrder true start n ↔ i ≤ start := by
+  simp only [scanOrder, if_true, List.mem_reverse, List.mem_range]; omega
+
+/-- left-to-right scan order is ascending, right-to-left descending (strictly) -/
+theorem scanOrder_sorted (rtl : Bool) (start n : Nat) :
+    (scanOrder rtl start n).Pairwise (fun a b => if rtl then b < a else a < b) := by
+  cases rtl
+  · simp only [scanOrder, Bool.false_eq_true, if_false]
+    exact List.Pairwise.sublist (List.drop_sublist _ _) (List.pairwise_lt_range)
+  · simp only [scanOrder, if_true, List.pairwise_reverse]
+    exact List.pairwise_lt_range
+
+/-- **find returns the attempt at the first position in scan order at which an attempt succeeds.** -/
+theorem find_eq_some_iff (e : Env) (p : Pat) (rtl : Bool) (start : Nat) (st : St) :
+    find e p rtl start = some st ↔
+      ∃ before i after, scanOrder rtl start e.n = before ++ i :: after ∧
+        attempt e p rtl i = some st ∧ ∀ j ∈ before, attempt e p rtl j = none := by
+  unfold find
+  rw [List.findSome?_eq_some_iff]
+
+/-- **find reports no match exactly when the search finds none**: no position in scan order has a
+    success. -/
+theorem find_eq_none_iff (e : Env) (p : Pat) (rtl : Bool) (start : Nat) :
+    find e p rtl start = none ↔ ∀ i ∈ scanOrder rtl start e.n, m e (.cap 0 p) rtl { pos := i, caps := [] } = [] := by
+  unfold find attempt
+  rw [List.findSome?_eq_none_iff]
+  constructor
+  · intro h i hi; have := h i hi; simpa [List.head?_eq_none_iff] using this
+  · intro h i hi; rw [h i hi]; rfl
+
+/-- **Every result is well-formed**: the end position and every capture of every group lie inside
+    the input. -/
+theorem spec_wf (e : Env) (p : Pat) (rtl : Bool) (start : Nat) (hs : start ≤ e.n) (st : St)
+    (h : find e p rtl start = some st) : st.pos ≤ e.n ∧ ∀ c ∈ st.caps, c.2.1 + c.2.2 ≤ e.n := by
+  obtain ⟨before, i, after, hso, hat, _⟩ := (find_eq_some_iff e p rtl start st).mp h
+  have hi : i ∈ scanOrder rtl start e.n := by rw [hso]; simp
+  have hin : i ≤ e.n := by
+    cases rtl
+    · exact ((mem_scanOrder_ltr start e.n i).mp hi).2
+    · have := (mem_scanOrder_rtl start e.n i).mp hi; omega
+  unfold attempt at hat
+  have hmem : st ∈ m e (.cap 0 p) rtl { pos := i, caps := [] } := List.mem_of_mem_head? hat
+  exact m_wf e (.cap 0 p) rtl { pos := i, caps := [] } ⟨hin, by simp⟩ st hmem
+
+/-- **Group 0 is the match**: the last capture of a result is group 0 and spans from the attempt
+    position to the end position (normalised to `(min, |Δ|)`, so right-to-left matches are ordinary
+    spans). -/
+theorem attempt_group0 (e : Env) (p : Pat) (rtl : Bool) (i : Nat) (st : St)
+    (h : attempt e p rtl i = some st) :
+    ∃ caps, st.caps = caps ++ [(0, min i st.pos, max i st.pos - min i st.pos)] := by
+  unfold attempt at h
+  have hmem := List.mem_of_mem_head? h
+  simp only [m, List.mem_map] at hmem
+  obtain ⟨y, _, rfl⟩ := hmem
+  exact ⟨y.caps, rfl⟩
+
+/-- n-ary alternation is the right nesting of the binary one (either nesting gives the same list) -/
+theorem alt_assoc (e : Env) (a b c : Pat) (rtl : Bool) (st : St) :
+    m e (.alt (.alt a b) c) rtl st = m e (.alt a (.alt b c)) rtl st := by
+  simp [m, List.append_assoc]
+
+/-- n-ary concatenation likewise, in both directions -/
+theorem seq_assoc (e : Env) (a b c : Pat) (rtl : Bool) (st : St) :
+    m e (.seq (.seq a b) c) rtl st = m e (.seq a (.seq b c)) rtl st := by
+  cases rtl <;> simp [m, List.flatMap_assoc]
+
+/-- an alternation tries its branches in order: the first branch's successes come first -/
+theorem alt_priority (e : Env) (a b : Pat) (rtl : Bool) (st : St) (x : St) (h : (m e a rtl st).head? = some x) :
+    (m e (.alt a b) rtl st).head? = some x := by
+  simp only [m]
+  cases hm : m e a rtl st with
+  | nil => rw [hm] at h; simp at h
+  | cons y ys => rw [hm] at h; simpa using h
+
+/-! ### non-vacuity: a concrete pattern, input and result -/
+
+/-- `(a|ab)(c|bcd)?` on "abcd": the first alternative that lets the rest succeed wins, captures
+    are reported per group, group 0 last -/
+def demoEnv : Env := { text := [97, 98, 99, 100], textstart := 0, named := [], word := [], fold := [] }
+def demoPat : Pat :=
+  .seq (.cap 1 (.alt (.chr (.one 97 false)) (.seq (.chr (.one 97 false)) (.chr (.one 98 false)))))
+       (.quant false 0 (some 1) (.cap 2 (.alt (.chr (.one 99 false))
+          (.seq (.chr (.one 98 false)) (.seq (.chr (.one 99 false)) (.chr (.one 100 false)))))))
+
+example : find demoEnv demoPat false 0 = some { pos := 4, caps := [(1, 0, 1), (2, 1, 3), (0, 0, 4)] } := by decide
+example : findRun demoEnv demoPat false 0 = find demoEnv demoPat false 0 := by decide
+example : find demoEnv (.chr (.one 120 false)) false 0 = none := by decide
+
 end RegexVerif.Props.C01
